@@ -130,6 +130,8 @@ func (s outcomeSet) allows(t model.Tri, isErr bool) bool {
 	return s.vals[t]
 }
 
+var c11Seq int
+
 type c11Eval struct {
 	c      *h.Ctx
 	doc    string
@@ -158,6 +160,13 @@ func (e *c11Eval) run(expr string, nested, silent bool) (t model.Tri, isErr, ok 
 	}
 	doc := h.Decode(e.doc, e.useNum)
 	opts := h.Opts{Vars: h.DecodeVars(e.vars, e.useNum), Silent: silent}
+	c11Seq++
+	if c11Seq%3 == 0 {
+		// the Path has been used before, with other options (WithTZ, a context
+		// zone): the outcome of an operand is that of this call
+		_ = h.Call([]string{"query", "match", "exists"}[c11Seq/3%3], p, doc, h.Opts{Vars: opts.Vars, TZ: true, Zone: h.ParseZone([]string{"+05:30", "UTC", "-08:00"}[c11Seq/9%3]), Silent: c11Seq%2 == 0})
+		e.c.Eval(1)
+	}
 	o = h.Call("query", p, doc, opts)
 	e.c.Eval(1)
 	if nested {
